@@ -68,7 +68,11 @@ class Table_Form_Builder(object):
     except KeyError:
       raise Table_Form_Exception("Unknown interpolation type specified for [Table-Form:{}]: '{}'".format(table_tuple.name, table_tuple.interpolation))
 
-    factory = Table_Form_Factory(table_tuple, cls)
-    func = factory()
-    pf = Table_Form(table_tuple, cls)
+    try:
+      factory = Table_Form_Factory(table_tuple, cls)
+      func = factory()
+      pf = Table_Form(table_tuple, cls)
+    except ValueError as e:
+      # Raised by the interpolation class for unusable data (too few points, x not strictly increasing)
+      raise Table_Form_Exception("Could not interpolate the data of [Table-Form:{}]: {}".format(table_tuple.name, e))
     return pf
